@@ -130,6 +130,8 @@ def run_roll(case):
     tr.update(W=W, minp=minp)
     if case.get("long"):
         tr["long"] = 1
+        if case.get("period"):
+            tr["period"] = case["period"]
     keyobj, kenc = _keys_obj(case)
     values = _values_obj(case, emb)
     mask = _mask_obj(case)
